@@ -17,7 +17,9 @@ RULE = ("list requests over a controller with a local backend, 0-3 known remotes
         "for base requests paged one item at a time, an error / no-progress / repeated item injected at every "
         "backend call index; plus a cancellation stream (one cluster fails by itself, another one's backend waits "
         "for the context to be cancelled at a chosen call); about one case in eight uses only three distinct "
-        "modified_at values (ties in the merge order); plus user lists with Login.LoginCluster set (known remote, local, "
+        "modified_at values (ties in the merge order); plus a stream where the caller's context ends during a chosen "
+        "backend call; plus requests sent through HTTP and the real controller router (op hlist), remotes behind "
+        "rpc.Conn -> router too, with uuid lists below and above the 1000-byte POST-override threshold; plus user lists with Login.LoginCluster set (known remote, local, "
         "unknown, malformed; bypass; failing backend / cache update). Non-trivial = the request involves a cluster other than the local one and is not "
         "bypassed; distinct = distinct case line")
 ASSUMPTIONS = [
@@ -169,6 +171,10 @@ def compare(case, impl, model):
         return impl == model
     ih, il = impl.split(" | ", 1)
     mh, ml = model.split(" | ", 1)
+    if case.startswith("hlist ") and mh.startswith("err ") and ih.startswith("err "):
+        # real RPC backends honour the cancellation that follows the first error: which calls of the other
+        # clusters still reach their backend depends on timing, so only the error is compared
+        return ih[4:] in mh[4:].split("|")
     if il != ml:
         return False
     if mh.startswith("err ") and ih.startswith("err "):
@@ -400,6 +406,8 @@ def describe(cases, impl):
         c = parse_case(cs)
         a = _analyse(c)
         kinds[c.kind] += 1
+        if cs.startswith("hlist "):
+            d["through HTTP (rpc.Conn -> router), " + ("long" if len(cs.split(" ")[6]) >= 700 else "short") + " uuid list"] += 1
         if c.login is not None:
             d["user list with LoginCluster " + ("(detour)" if c.login != c.local and not c.bypass else "(no detour)")] += 1
         if a.passthrough:
@@ -417,6 +425,8 @@ def describe(cases, impl):
             for act in acts:
                 if act == "w":
                     d["script: waits for context cancellation"] += 1
+                elif act == "c":
+                    d["script: caller's context ends during this call"] += 1
                 elif act.startswith("e"):
                     d["script: error"] += 1
                 elif "+" in act or "^" in act:
@@ -740,6 +750,89 @@ def _cancel_cases(rng, n):
     return out
 
 
+def _caller_cancel_cases(rng, n):
+    """The caller's context ends (script action "c") during a chosen backend call of one involved known cluster;
+    the other clusters answer honestly (or fail by themselves)."""
+    out = []
+    tries = 0
+    while len(out) < n and tries < 50 * n:
+        tries += 1
+        b = _base(rng, "quick")
+        world = dict(b["world"])
+        fl = ["uuid~in~" + _operand(rng, b["req"], allow_nonstring=False)]
+        r27 = _requested(fl)
+        opts = _opts(rng)
+        knownc = [b["local"]] + b["known"]
+        inv_known = [cid for cid in knownc if any(u[:5] == cid for u in r27)]
+        if not inv_known or {u[:5] for u in r27} == {b["local"]}:
+            continue
+        victim = rng.choice(inv_known)
+        exist = [u for u in r27 if u[:5] == victim and u in world]
+        j = rng.randint(0, len(exist))
+        sc = {victim: [f"p1.{rng.choice('fr')}"] * j + ["c"]}
+        for cid in inv_known:
+            if cid not in sc:
+                sc[cid] = [_honest_act(rng, 3) for _ in range(rng.randint(0, 3))]
+                if rng.random() < 0.15:
+                    sc[cid] = ["e" + rng.choice(["0", "503"])]
+        out.append(_fmt(b["kind"], b["local"], 100, b["remotes"], opts, fl, b["world"], sc))
+    return out
+
+
+def _http_cases(rng, n):
+    """op hlist: the request and all remotes go through rpc.Conn -> HTTP -> controller router. Uuid lists short
+    (query string) and long (>= 1000 bytes encoded: POST form + X-Http-Method-Override) on the client side and
+    on the controller->remote side; honest and dishonest paging; a few unsplittable / failing variants."""
+    out = []
+    while len(out) < n:
+        kind = rng.choice(KINDS)
+        local = rng.choice(["aaaaa", "zzzzz"])
+        known = rng.sample(["bbbbb", "ccccc", "ddddd"], rng.choice([1, 1, 2]))
+        tsp = rng.sample(range(1, 100000), 400)
+        world, req = [], []
+        for cid in [local] + known:
+            big = rng.random() < 0.6
+            nobj = rng.randint(24, 45) if big else rng.randint(0, 6)
+            objs = [_uuid(rng, cid, kind) for _ in range(nobj)]
+            world += [(u, tsp.pop()) for u in objs]
+            req += [u for u in objs if rng.random() < 0.9]
+            req += [_uuid(rng, cid, kind) for _ in range(rng.choice([0, 0, 1, 3]))]
+        r = rng.random()
+        if r < 0.1:
+            req.append(_uuid(rng, "qqqqq", kind))  # unknown cluster
+        if r > 0.9:
+            req += [_malformed(rng), req[0]]
+        if not req:
+            continue
+        rng.shuffle(req)
+        fl = ["uuid~in~" + ("t:" if rng.random() < 0.5 else "i:") + ",".join(req)]
+        if rng.random() < 0.2 and len(req) > 3:
+            fl.append("uuid~in~i:" + ",".join(req[1:]))
+        opts = dict(count="none", limit=-1, offset=0, order=[], select=None, bypass=False, fwd="")
+        r = rng.random()
+        if r < 0.05:
+            opts["count"] = "exact"
+        elif r < 0.1:
+            opts["limit"] = 5
+        elif r < 0.13:
+            fl.insert(0, "name~like~s:a%")
+        n27 = len(_requested(fl))
+        mx = rng.choice([1000, 1000, n27, max(0, n27 - 1)])
+        sc = {}
+        wd = dict(world)
+        for cid in [local] + known:
+            r = rng.random()
+            mine = [u for u in req if u[:5] == cid and u in wd]
+            if r < 0.45:
+                sc[cid] = [f"p{rng.choice([1, 3, 10, 20])}.{rng.choice('fr')}"] * (len(mine) + 2)
+            elif r < 0.55 and cid != local:
+                sc[cid] = ["p5.f", "e" + rng.choice(["0", "503"])]
+            elif r < 0.65 and mine and cid != local:
+                sc[cid] = ["p2.f", f"p2.f+{mine[0]}@{wd[mine[0]]}"]
+        out.append("h" + _fmt(kind, local, mx, known, opts, fl, world, sc))
+    return out
+
+
 def _login_cases(rng, n):
     """conn.go UserList with Login.LoginCluster set: a known remote, the local cluster, an unknown cluster or a
     malformed id; answers with users of several clusters; bypass; failing backend; failing cache update."""
@@ -823,6 +916,8 @@ def generate(rng, tier):
     cases += _systematic(rng, 25 if tier == "quick" else 600)
     cases += _cancel_cases(rng, 60 if tier == "quick" else 2000)
     cases += _login_cases(rng, 120 if tier == "quick" else 4000)
+    cases += _caller_cancel_cases(rng, 60 if tier == "quick" else 2000)
+    cases += _http_cases(rng, 80 if tier == "quick" else 1500)
     if tier != "quick":
         cases += _exhaustive(rng)
     return cases
